@@ -254,7 +254,9 @@ def _note_array_and_tracks(b, rng):
         for notes, ctl in (([(60, 0, 1), (64, 0.5, 2.5), (60, 2, 4)], []), ([(60, 0, 1), (64, 0.5, 2.5), (60, 2, 4)], [(64, 0.5, 127), (64, 5, 0)]),
                            ([(72, 0.013, 0.5), (30, 1.0004, 1.0004)], [(64, 0.2, 100)]), ([(60, 0.0, 0.0), (61, 1.25, 1.25), (62, 2.0, 2.0001)], []), ([(60, 1.3, 2.9), (62, 601.125, 602.5), (64, 3599.77, 3600.01)], [])):
             case = {"notes": notes, "controls": ctl, "ppq": ppq, "mpq": mpq}
-            part = _mk_part(notes, ctl)
+            ok, part = b.guard("pedal/never_fails_on_valid_notes", case, lambda: _mk_part(notes, ctl))
+            if not ok:
+                continue
             part.ppq, part.mpq = ppq, mpq
             ok, na = b.guard("note_array/no_exception", case, lambda: part.note_array())
             if not ok:
